@@ -571,6 +571,14 @@ def run_task(task):
             if task["shard"] == 0:
                 res.sample({"engine": "exhaustive", "data": mine[-1].hex(),
                             "ops": [MENU[11][8], MENU[4][8], MENU[13][8]][:maxd]})
+        elif task["kind"] == "long":
+            for case in long_cases()[task["lo"]::task["step"]]:
+                res.evaluations += 1
+                res.labels["long:histories"] += 1
+                info = {}
+                run_history(EoReader, bytes.fromhex(case["data"]), case["ops"], info)
+                if info.get("flags") == 7:
+                    res.nontrivial(["long", len(case["data"]) // 2, case["data"][:2], case["ops"]])
         else:
             def oracle(case):
                 res.evaluations += 1
@@ -606,7 +614,36 @@ def plan(tier, seed):
     # the exhaustive engine's counterexamples are minimal (<= 3 or 4 ops over <= 5 bytes)
     tasks = [{"kind": "exh", "shard": s, "nshards": NSHARDS, "depth": DEPTH[tier]} for s in range(NSHARDS)]
     tasks += [{"kind": "hyp", "n": HYP_CASES[tier], "seed": seed * 1000 + w} for w in range(HYP_WORKERS)]
+    tasks += [{"kind": "long", "lo": i, "step": 8} for i in range(8)]
     return tasks
+
+
+LONG_LENGTHS = (252, 253, 254, 255, 256, 257, 64007, 64008, 64009, 64010, 65535, 65536, 70001, 200003)
+
+
+def long_cases():
+    """Deterministic histories over data with one very long chunk (lengths around the EO type limits
+    and beyond a packet size): the model does not depend on how far away a break byte is."""
+    out = []
+    for L in LONG_LENGTHS:
+        for fill in (0x01, 0xFE, 0x00):
+            data = bytes([fill]) * L + b"\xff" + b"\x02\x03\xff" + bytes([fill]) * 3
+            hs = [
+                [[0, "mode", True, None], [0, "get_short", None, None], [0, "get_string", None, None],
+                 [0, "next_chunk", None, None], [0, "get_char", None, None], [0, "next_chunk", None, None],
+                 [0, "get_int", None, None]],
+                [[0, "get_bytes", L + 2, None], [0, "mode", True, None], [0, "get_byte", None, None],
+                 [0, "next_chunk", None, None], [0, "get_short", None, None]],
+                [[0, "mode", True, None], [0, "slice", None, None], [1, "mode", True, None],
+                 [1, "get_fixed_string", L, False], [1, "get_byte", None, None], [1, "next_chunk", None, None],
+                 [1, "get_byte", None, None]],
+                [[0, "mode", True, None], [0, "next_chunk", None, None], [0, "mode", False, None],
+                 [0, "slice", 1, L + 5], [1, "mode", True, None], [1, "get_encoded_string", None, None],
+                 [1, "next_chunk", None, None], [1, "get_string", None, None]],
+            ]
+            for h in hs:
+                out.append({"data": data.hex(), "ops": h})
+    return out
 
 
 def finalize(merged, tier):
